@@ -80,6 +80,7 @@ def scenarios(tier):
             L.append("notifyhook %s %s" % (fl, ep))
             L.append("delleak %s %s" % (fl, ep))
             L.append("provleak %s %s" % (fl, ep))
+            L.append("mixrebase %s %s" % (fl, ep))
             for who in ("provided", "required", "name"):
                 L.append("hashhook %s %s %s" % (fl, ep, who))
             if fl == "verifying":
